@@ -8,6 +8,7 @@ import (
 	"strconv"
 	"strings"
 	"unicode/utf16"
+	"unicode/utf8"
 
 	"github.com/woodsbury/jmespath/internal/lexer"
 )
@@ -2173,29 +2174,15 @@ func parseQuotedIdentifier(s string) (string, error) {
 			v = v[5:]
 
 			if utf16.IsSurrogate(r) {
-				if len(v) < 6 {
-					return "", &invalidQuotedStringError{s}
+				// Only a following \uXXXX escape can complete a surrogate
+				// pair; a lone surrogate becomes U+FFFD and whatever follows
+				// it is decoded normally, as encoding/json does.
+				if r2, ok := unicodeEscape(v); ok && utf16.DecodeRune(r, r2) != utf8.RuneError {
+					r = utf16.DecodeRune(r, r2)
+					v = v[6:]
+				} else {
+					r = utf8.RuneError
 				}
-
-				if v[0] != '\\' && v[1] != 'u' {
-					return "", &invalidQuotedStringError{s}
-				}
-
-				var r2 rune
-				for _, c := range v[2:6] {
-					if c >= 0 && c <= '9' {
-						r2 = r2*16 + rune(c-'0')
-					} else if c >= 'a' && c <= 'f' {
-						r2 = r2*16 + rune(c-'a'+10)
-					} else if c >= 'A' && c <= 'F' {
-						r2 = r2*16 + rune(c-'A'+10)
-					} else {
-						return "", &invalidQuotedStringError{s}
-					}
-				}
-
-				r = utf16.DecodeRune(r, r2)
-				v = v[6:]
 			}
 
 			b.WriteRune(r)
@@ -2213,6 +2200,28 @@ func parseQuotedIdentifier(s string) (string, error) {
 		b.WriteString(v[:i])
 		v = v[i+1:]
 	}
+}
+
+// unicodeEscape decodes a \uXXXX escape at the start of s.
+func unicodeEscape(s string) (rune, bool) {
+	if len(s) < 6 || s[0] != '\\' || s[1] != 'u' {
+		return 0, false
+	}
+
+	var r rune
+	for _, c := range s[2:6] {
+		if c >= '0' && c <= '9' {
+			r = r*16 + rune(c-'0')
+		} else if c >= 'a' && c <= 'f' {
+			r = r*16 + rune(c-'a'+10)
+		} else if c >= 'A' && c <= 'F' {
+			r = r*16 + rune(c-'A'+10)
+		} else {
+			return 0, false
+		}
+	}
+
+	return r, true
 }
 
 func parseStringLiteral(s string) (Node, error) {
